@@ -497,6 +497,12 @@ def rule_S1C(ctx):
                 eff[c[2][0][2]] = "%s(%s)" % (c[1], ", ".join(cshow(a) for a in c[2][1:]))
         return eff
     ei, er = effects(ci), effects(cr)
+    # init may be written as `chunk_state_reset(self, key, 0); self->flags = flags;`: then it has reset's effects with counter 0
+    deleg = [c for c, g, l in calls_in(ci["body"]) if c[1] == "chunk_state_reset" and len(c[2]) == 3 and r_cbudget_norm(c[2][0]) == ("var", ci["params"][0][0])
+             and r_cbudget_norm(c[2][1]) == ("var", ci["params"][1][0])]
+    if deleg and r_cbudget_norm(deleg[0][2][2]) == ("int", 0):
+        for k_, v_ in er.items():
+            ei.setdefault(k_, "0" if k_ == "chunk_counter" else v_)
     ei.pop("flags", None)
     er2 = dict(er)
     same = all(ei.get(k) == er2.get(k) for k in ("cv", "blocks_compressed", "buf", "buf_len")) and ei.get("chunk_counter") == "0" and er2.get("chunk_counter") == "chunk_counter" and "flags" not in er
